@@ -49,7 +49,7 @@ UNKNOWN_BODIES = (
     (["foo", "", "baz", "   ", "", "\t", "0 = N 1 0", ""], ""),
     (["a = b", "}\ufeff", "\ufeff}", "[Song]\ufeff", "\u200b}", "{\ufeff", "0 = N 3 0", "c = d"], ""),
 )
-VIAS = ("file", "path", "path-bom", "path-reuse")  # path-reuse: another chart of equal size read from the same path (same mtime) just before
+VIAS = ("file", "path", "path-bom", "path-str", "path-reuse")  # path-reuse: another chart of equal size read from the same path (same mtime) just before
 
 
 def setup():
